@@ -1322,6 +1322,11 @@ class Gen:
                 try:
                     if any(lib.state(n).get("alias") is not None for n in o.nodes_()):
                         return 1
+                    # wrappers that do not list their operand among their nodes (Negative, ...): look at the text
+                    from . import sqllex
+                    sql = o.get_sql(self.L.context.DEFAULT_SQL_CONTEXT)
+                    if sqllex.predicate_juxtapositions("SELECT 1 WHERE " + sql, '"', False):
+                        return 1
                 except Exception:  # noqa: BLE001
                     return 1
             return v
